@@ -8,7 +8,7 @@ META = {
                    "outcome; purge accounting; writers of capacity/free_space confined to the Manager; the server loop serves each request class with the "
                    "matching Manager operation on the request's fields and returns its verdict unchanged ('wait' stays 'wait', refusals stay "
                    "refusals, free space is the manager's figure) to the requesting client exactly once. "
-                   "Not decided: the instantaneous invariant under every interleaving of the disk threads with requests.",
+                   "Later rules: a purge racing a finished page-out credits the size once (history with the completion callback), a page-out whose unlink fails reports failure, the store starts with free space = capacity <= available. Not decided: the instantaneous invariant under every interleaving of the disk threads with requests.",
     "assumptions": ["SharedMemory and the disk pool are opaque; one dataset per model store"],
 }
 RULES = [r_add, r_get_pagein, r_pageout_callback, r_pagein_callback, r_purge, r_space_writers, r_residency_pairing, r_server_dispatch, r_manager_init, r_size_nonnegative, r_purge_races_pageout]
